@@ -1121,10 +1121,12 @@ def gen_special_cases(rng, now_ms):
         for op in ('<=', '>='):
             out.append((('C', [('path', [('k', 'a')]), ('call', [], 'now', [])], [op]), {"a": now_ms + delta}, {}))
     base = 1634668142000                      # 10/19/2021, 6:29:02.000 PM UTC
-    for d in (-1, 0, 1):
-        for op in ('>', '>=', '<', '=='):
-            node = ('Q' if op == '==' else 'C', [('path', [('k', 'a')]), ('call', [], 'datetime', [('str', '10/19/2021, 6:29:02.000 PM')])], [op])
-            out.append((node, {"a": base + d}, {}))
+    for frac in (0, 1, 500, 999):             # the millisecond part of the literal counts
+        lit = '10/19/2021, 6:29:02.%03d PM' % frac
+        for d in (-1, 0, 1):
+            for op in ('>', '>=', '<', '=='):
+                node = ('Q' if op == '==' else 'C', [('path', [('k', 'a')]), ('call', [], 'datetime', [('str', lit)])], [op])
+                out.append((node, {"a": base + frac + d}, {}))
     out.append((('call', [], 'datetime', [('str', 'not a date')]), {}, {}))
     docs = [{"b": 1, "c": {"d": [1, 2, {"k": "v"}]}, "k": [{"x": 1}, {"x": 2}]}, [1, 2, "x"], {"b": "x", "k": 1000000}, {}, 5]
     subs = [[('k', 'b')], [('k', 'c'), ('k', 'd')], [('i', 0)], [('b', 'b')], [('bw',)], [('d', 'x')], [('k', 'k'), ('w',), ('k', 'x')],
